@@ -36,6 +36,9 @@ func init() {
 					f = append(f, fmt.Sprintf("%s=%d < 50", k, a.Counters[k]))
 				}
 			}
+			if a.ClassCount("root-records") < 10 {
+				f = append(f, fmt.Sprintf("only %d sizes of streams with hundreds of root records", a.ClassCount("root-records")))
+			}
 			return f
 		},
 		Assumptions: []string{
@@ -76,6 +79,19 @@ func c02Run(c *fw.Ctx, i int) {
 		fo.ChainDeep = r.Range(2, 30)
 	}
 	specs := gen.Decodable(gen.RandomForest(r, fo))
+	if i < n && i%200 == 7 {
+		// files with hundreds or thousands of root records (real files have tens
+		// of thousands), sizes on both sides of powers of two and round numbers
+		sizes := []int{255, 257, 511, 513, 515, 519, 600, 777, 1001, 1023, 1025, 1027, 2049, 3003, 4099}
+		want := sizes[(i/200)%len(sizes)]
+		small := gen.ForestOpts{MaxRoots: 3, MaxKids: 2, MaxDepth: 2, MaxNodes: 6}
+		for len(specs) < want {
+			specs = append(specs, gen.Decodable(gen.RandomForest(r, small))...)
+		}
+		specs = specs[:want]
+		c.Count("streams-with-hundreds-of-root-records", 1)
+		c.Class("root-records", fmt.Sprint(want))
+	}
 	if i < n {
 		c02Constructive(c, specs)
 		// several different streams decoded by 8 goroutines at once (buffers,
